@@ -321,6 +321,7 @@ func checkC18(ctx *Ctx, r *Report, tier string) {
 	}
 	r.floor("H4", 4)
 	screwSpec(ctx, r, "H5")
+	checkISOMating(ctx, r)
 	r.floor("H5", 2)
 }
 
@@ -329,4 +330,233 @@ func tk(t *Term) string {
 		return "<nil>"
 	}
 	return shortKey(t.Key(), 70)
+}
+
+// ---------------------------------------------------------------- H6: the ISO profiles mate
+
+// isoVertex: one polygon vertex of a thread profile with its fillet radius (0 = sharp).
+type isoVertex struct {
+	x, y, r float64
+	facets  int
+}
+
+// isoProfile reads the profile polygon ISOThread builds (external or internal) from the
+// events of its symbolic evaluation and evaluates the closed-form coordinates numerically for
+// the given radius and pitch.
+func isoProfile(ctx *Ctx, fn *ssa.Function, external bool, radius, pitch float64) ([]isoVertex, error) {
+	ev := newEval(ctx, "Add", "Smooth", "Polygon2D", "Vertices")
+	ext := int64(0)
+	if external {
+		ext = 1
+	}
+	ev.evalRootWith(fn, map[string]int64{paramName(fn, 2): ext})
+	env := map[string]float64{paramName(fn, 0): radius, paramName(fn, 1): pitch}
+	var vs []isoVertex
+	for _, e := range ev.Events {
+		switch {
+		case strings.HasSuffix(e.Callee, "sdf.Polygon).Add") && len(e.Args) == 3:
+			x, ok1 := evalFloat(e.Args[1], env)
+			y, ok2 := evalFloat(e.Args[2], env)
+			if !ok1 || !ok2 {
+				return nil, fmt.Errorf("vertex coordinates are not closed forms of radius and pitch: %s, %s", shortKey(valKey(e.Args[1]), 60), shortKey(valKey(e.Args[2]), 60))
+			}
+			vs = append(vs, isoVertex{x: x, y: y})
+		case strings.HasSuffix(e.Callee, "sdf.PolygonVertex).Smooth") && len(e.Args) == 3 && len(vs) > 0:
+			rr, ok1 := evalFloat(e.Args[1], env)
+			n, ok2 := evalFloat(e.Args[2], env)
+			if !ok1 || !ok2 {
+				return nil, fmt.Errorf("fillet radius is not a closed form")
+			}
+			vs[len(vs)-1].r, vs[len(vs)-1].facets = rr, int(n)
+		}
+	}
+	if len(vs) < 5 {
+		return nil, fmt.Errorf("%d profile vertices found", len(vs))
+	}
+	return vs, nil
+}
+
+// evalFloat evaluates a closed form numerically (float64), atoms from env.
+func evalFloat(v Val, env map[string]float64) (float64, bool) {
+	t, ok := v.(*Term)
+	if !ok {
+		return 0, false
+	}
+	switch t.Op {
+	case "c":
+		f, _ := t.C.Float64()
+		return f, true
+	case "a":
+		f, ok := env[t.S]
+		return f, ok
+	case "+":
+		s := 0.0
+		for _, a := range t.Args {
+			x, ok := evalFloat(a, env)
+			if !ok {
+				return 0, false
+			}
+			s += x
+		}
+		return s, true
+	case "*":
+		s := 1.0
+		for _, a := range t.Args {
+			x, ok := evalFloat(a, env)
+			if !ok {
+				return 0, false
+			}
+			s *= x
+		}
+		return s, true
+	case "/":
+		x, ok := evalFloat(t.Args[0], env)
+		return 1 / x, ok && x != 0
+	case "conv":
+		return evalFloat(t.Args[0], env)
+	case "call":
+		if len(t.Args) == 1 {
+			x, ok := evalFloat(t.Args[0], env)
+			if !ok {
+				return 0, false
+			}
+			switch t.S {
+			case "math.Tan":
+				return math.Tan(x), true
+			case "math.Cos":
+				return math.Cos(x), true
+			case "math.Sin":
+				return math.Sin(x), true
+			case "math.Sqrt":
+				return math.Sqrt(x), true
+			case "math.Abs":
+				return math.Abs(x), true
+			case "math.Atan":
+				return math.Atan(x), true
+			}
+		}
+	}
+	return 0, false
+}
+
+// filletPolygon applies the library's vertex smoothing (closed forms decided by C17/Z6:
+// tangent distance r/tan(θ/2) checked against both edges, centre distance r/sin(θ/2), facets
+// equal steps of sign·(π−θ)/facets) to a closed polygon.
+func filletPolygon(vs []isoVertex) [][2]float64 {
+	n := len(vs)
+	var out [][2]float64
+	for i, v := range vs {
+		if v.r == 0 || v.facets == 0 {
+			out = append(out, [2]float64{v.x, v.y})
+			continue
+		}
+		p, q := vs[(i+n-1)%n], vs[(i+1)%n]
+		ax, ay := p.x-v.x, p.y-v.y
+		bx, by := q.x-v.x, q.y-v.y
+		la, lb := math.Hypot(ax, ay), math.Hypot(bx, by)
+		ax, ay, bx, by = ax/la, ay/la, bx/lb, by/lb
+		theta := math.Acos(ax*bx + ay*by)
+		d1 := v.r / math.Tan(theta/2)
+		if d1 > la || d1 > lb {
+			out = append(out, [2]float64{v.x, v.y})
+			continue
+		}
+		p0x, p0y := v.x+ax*d1, v.y+ay*d1
+		d2 := v.r / math.Sin(theta/2)
+		cx, cy := ax+bx, ay+by
+		lc := math.Hypot(cx, cy)
+		cx, cy = v.x+cx/lc*d2, v.y+cy/lc*d2
+		sg := 1.0
+		if bx*ay-by*ax < 0 { // sign(v1 × v0)
+			sg = -1
+		}
+		dt := sg * (math.Pi - theta) / float64(v.facets)
+		rx, ry := p0x-cx, p0y-cy
+		for j := 0; j <= v.facets; j++ {
+			out = append(out, [2]float64{cx + rx, cy + ry})
+			rx, ry = rx*math.Cos(dt)-ry*math.Sin(dt), rx*math.Sin(dt)+ry*math.Cos(dt)
+		}
+	}
+	return out
+}
+
+// insideOrNear: p lies in the closed polygon, or within tol of its boundary.
+func insideOrNear(poly [][2]float64, p [2]float64, tol float64) bool {
+	in := false
+	n := len(poly)
+	for i := 0; i < n; i++ {
+		a, b := poly[i], poly[(i+1)%n]
+		if (a[1] > p[1]) != (b[1] > p[1]) && p[0] < (b[0]-a[0])*(p[1]-a[1])/(b[1]-a[1])+a[0] {
+			in = !in
+		}
+		// distance to the edge
+		dx, dy := b[0]-a[0], b[1]-a[1]
+		l2 := dx*dx + dy*dy
+		t := 0.0
+		if l2 > 0 {
+			t = ((p[0]-a[0])*dx + (p[1]-a[1])*dy) / l2
+		}
+		t = math.Max(0, math.Min(1, t))
+		if math.Hypot(p[0]-a[0]-t*dx, p[1]-a[1]-t*dy) <= tol {
+			return true
+		}
+	}
+	return in
+}
+
+// checkISOMating: at equal nominal radius and zero tolerance the external (bolt) profile must
+// lie inside the internal profile (the solid a nut is cut with) over the thread period the
+// screw uses, |x| <= pitch/2: otherwise bolt and nut interfere for tight fits. The profile
+// polygons are read from the source (closed forms in radius and pitch), filleted with the
+// library's own smoothing rule and compared numerically (tolerance 1e-7 pitch; the designed
+// fit is tangent). Decided for three radius/pitch ratios (M3x0.5, M8x1.25, M64x6).
+func checkISOMating(ctx *Ctx, r *Report) {
+	fn := ctx.ssaFunc("sdf", "ISOThread")
+	key := "ISOThread|external-profile-fits-inside-internal-profile"
+	if fn == nil || len(fn.Params) != 3 {
+		r.undecided("H6", key, 0, "ISOThread(radius, pitch, external) not found")
+		return
+	}
+	ok := true
+	detail := ""
+	for _, c := range [][2]float64{{1.5, 0.5}, {4, 1.25}, {32, 6}} {
+		radius, pitch := c[0], c[1]
+		ev, err1 := isoProfile(ctx, fn, true, radius, pitch)
+		iv, err2 := isoProfile(ctx, fn, false, radius, pitch)
+		if err1 != nil || err2 != nil {
+			r.undecided("H6", key, fn.Pos(), fmt.Sprint(err1, err2))
+			return
+		}
+		ext, in := filletPolygon(ev), filletPolygon(iv)
+		worst := 0.0
+		var at [2]float64
+		n := len(ext)
+		for i := 0; i < n; i++ {
+			a, b := ext[i], ext[(i+1)%n]
+			for _, p := range [][2]float64{a, {(a[0] + b[0]) / 2, (a[1] + b[1]) / 2}} {
+				if math.Abs(p[0]) > pitch/2 || p[1] <= 0 {
+					continue
+				}
+				if !insideOrNear(in, p, 1e-7*pitch) {
+					// how far outside: distance to the internal outline
+					d := math.Inf(1)
+					for j := range in {
+						u, w := in[j], in[(j+1)%len(in)]
+						dx, dy := w[0]-u[0], w[1]-u[1]
+						t := math.Max(0, math.Min(1, ((p[0]-u[0])*dx+(p[1]-u[1])*dy)/(dx*dx+dy*dy)))
+						d = math.Min(d, math.Hypot(p[0]-u[0]-t*dx, p[1]-u[1]-t*dy))
+					}
+					if d > worst {
+						worst, at = d, p
+					}
+				}
+			}
+		}
+		if worst > 0 {
+			ok = false
+			detail += fmt.Sprintf(" radius %g pitch %g: the bolt profile leaves the nut profile by %.4f pitch at (%.4f, %.4f);", radius, pitch, worst/pitch, at[0], at[1])
+		}
+	}
+	r.check("H6", key, fn.Pos(), ok, "bolt material never overlaps nut material at zero tolerance (profiles from the source, filleted as the library does);"+detail)
+	r.floor("H6", 1)
 }
